@@ -71,7 +71,7 @@ fn check_monotone(name: &str, f: &dyn Fn(usize) -> Option<usize>) -> Option<Stri
     None
 }
 
-fn overflow_family(ctx: &Ctx) -> Stats {
+pub fn overflow_family(ctx: &Ctx) -> Stats {
     let all = encs::all();
     let mut st = par_run(ctx, all.len(), |part, st| {
         let enc = all[part];
